@@ -280,6 +280,17 @@ func runC04(c *core.Ctx) {
 
 	steps := c.T.Range(60, 400, "steps")
 	for i := 0; i < steps && !c.Failed(); i++ {
+		// application data is traffic too: it keeps the selected remote "heard" exactly like STUN does
+		if c.T.Bias(1, 12, "appdata") {
+			for _, x := range ags {
+				if x.h.Conn != nil && !x.closed {
+					if n, err := x.h.Conn.Write([]byte("\x40app-data")); err == nil && n > 0 {
+						c.Probe("app-data-sent")
+					}
+				}
+			}
+			d.S.Settle()
+		}
 		dropMuted()
 		pool := d.S.Eligible()
 		act := c.T.Pick([]int{6, 5, 1, 1}, "act")
